@@ -106,6 +106,51 @@ Theorem C04_group_by_is_source_filter_buckets_items : forall strict src wh keys 
 Proof. exact group_by_pipeline. Qed.
 Print Assumptions C04_group_by_is_source_filter_buckets_items.
 
+(* HAVING: the statement SELECT items FROM src [WHERE c] GROUP BY keys HAVING h is the GROUP BY statement with the
+   buckets on which h - over the aggregates and key columns of the bucket itself - is not TRUE taken out; the
+   remaining buckets keep their order and their rows *)
+Require Import Csvq.Proofs.Having.
+Require Import Csvq.Model.Expr.
+Theorem C04_having_is_group_by_then_filter_of_buckets : forall strict src wh keys his h items,
+  eval_query strict (Q (BSelect src wh (Some keys) (Some (his, h)) items false) [] None None) =
+  (do rows <- eval_source strict src;
+   do kept <- (match wh with None => Ok rows | Some c => filter_rows c rows end);
+   do gs <- group_rows strict keys kept;
+   do gs1 <- filter_groups strict his h gs;
+   mapM (fun g => mapM (eval_item strict g) items) gs1).
+Proof. exact having_pipeline. Qed.
+Print Assumptions C04_having_is_group_by_then_filter_of_buckets.
+
+(* ... and "taken out" is the order-preserving filter by the value of h on the bucket; there is a result exactly
+   when h has a value on every bucket (an error on any bucket is an error of the statement, never a partial result) *)
+Theorem C04_having_keeps_exactly_the_true_buckets : forall strict his h gs out,
+  filter_groups strict his h gs = Ok out <->
+  exists v, (forall g, In g gs -> having_value strict his h g = Ok (v g)) /\ out = filter (fun g => is_true (v g)) gs.
+Proof. exact filter_groups_ok_iff. Qed.
+Print Assumptions C04_having_keeps_exactly_the_true_buckets.
+
+Theorem C04_having_membership : forall strict his h gs out g,
+  filter_groups strict his h gs = Ok out ->
+  (In g out <-> In g gs /\ exists x, having_value strict his h g = Ok x /\ is_true x = true).
+Proof. exact filter_groups_membership. Qed.
+Print Assumptions C04_having_membership.
+
+Theorem C04_having_true_everywhere_is_group_by : forall strict his h gs,
+  (forall g, In g gs -> exists x, having_value strict his h g = Ok x /\ is_true x = true) ->
+  filter_groups strict his h gs = Ok gs.
+Proof. exact filter_groups_all_true. Qed.
+Print Assumptions C04_having_true_everywhere_is_group_by.
+
+(* non-vacuity: k = 1 (two rows), k = 2 (one row), k = NULL (one row); HAVING COUNT( * ) > 1 keeps the first bucket,
+   HAVING k IS NULL the last one, HAVING SUM(v) > 'x' (UNKNOWN on every bucket) none *)
+Example C04_having_example :
+  let t := SrcTable 2 [[VInt 1; VInt 10]; [VInt 2; VInt 20]; [VInt 1; VInt 30]; [VNull; VInt 40]] in
+  eval_query false (Q (BSelect t None (Some [ECol 0]) (Some ([SCountStar], ECmp Compare.OpGt (ECol 0) (ELit (VInt 1))))
+                         [SExpr (ECol 0); SAgg AgMax false (ECol 1)] false) [] None None) = Ok [[VInt 1; VInt 30]] /\
+  eval_query false (Q (BSelect t None (Some [ECol 0]) (Some ([SExpr (ECol 0)], EIs false (ECol 0) (ELit VNull)))
+                         [SExpr (ECol 0); SCountStar] false) [] None None) = Ok [[VNull; VInt 1]].
+Proof. split; vm_compute; reflexivity. Qed.
+
 (* SELECT DISTINCT over a grouped view: the rows of the GROUP BY query, and of these the first one of every key -
    so selecting only some of the keys does not bring a key back more than once *)
 Require Import Csvq.Proofs.Lateral.
